@@ -806,7 +806,7 @@ Definition depth_ok (rk : list (str * nat)) (S : spec) (md : N) : bool :=
    information are filtered out by the oneOf/anyOf parser) *)
 Definition kind_ok (nd : node) (e : ir) : Prop :=
   match nd with
-  | Obj _ _ | AllOf _ => i_ty e = Some TyObject
+  | Obj _ _ | AllOf _ => i_ty e = Some TyObject /\ i_anyof e = None /\ i_oneof e = None /\ i_enum e = false
   | Arr y => struct_of e = TList (ty_of y)
   | MapN y => struct_of e = TMap (ty_of y)
   | Prim k => struct_of e = TPrim k
